@@ -148,6 +148,12 @@ def main():
         only = a[a.index("--only") + 1] if "--only" in a else None
         names = [n for n in sorted(os.listdir(os.path.join(VERIF, "seeded")))
                  if (not only or only in n) and os.path.exists(os.path.join(VERIF, "seeded", n, "meta.json"))]
+        # changes that a later `fix:` commit made harmless (their patch no longer applies or no longer breaks the property) are kept for the
+        # record but not run
+        retired = [n for n in names if json.load(open(os.path.join(VERIF, "seeded", n, "meta.json"))).get("retired")]
+        names = [n for n in names if n not in retired]
+        for n in retired:
+            out[n] = {"-": "retired"}
         jobs = int(a[a.index("--jobs") + 1]) if "--jobs" in a else 1
         if jobs > 1:
             # every run has its own scratch worktree; checks only share /verif's evidence/replays files, which runs do not read
@@ -163,8 +169,9 @@ def main():
         if only and os.path.exists(rp):
             out = dict(json.load(open(rp)), **out)  # a partial run updates the recorded results, it does not replace them
         json.dump(out, open(rp, "w"), indent=1, sort_keys=True)
-        missed = {k: v for k, v in out.items() if "caught" not in v.values()}
-        print(f"{len(out) - len(missed)}/{len(out)} seeded changes caught; not caught: {sorted(missed)}")
+        live = {k: v for k, v in out.items() if "retired" not in v.values()}
+        missed = {k: v for k, v in live.items() if "caught" not in v.values()}
+        print(f"{len(live) - len(missed)}/{len(live)} seeded changes caught ({len(out) - len(live)} retired); not caught: {sorted(missed)}")
 
 
 if __name__ == "__main__":
